@@ -101,13 +101,14 @@ def check_valid(case):
         # the caller keeps using its own quantity objects: showing them in another unit changes no magnitude (C13)
         calib_q << Unit[case["redisplay"]]
         r.label("calibration-redisplayed")
-    if case.get("pref_distance_after") and not case["bare_target"]:
+    if case.get("pref_distance_after"):
         pb.PreferredUnits.distance = Unit[case["pref_distance_after"]]
         r.label("preferred-distance-switched")
     drop, wind = _q(case["drop"]), _q(case["wind"])
     if case["bare_target"] and not case["via_row"]:
-        # a bare number is read in the preferred distance unit (yard at defaults)
-        target = ref.convert(case["target"][0], case["target"][1], "Yard")
+        # a bare number is read in the preferred distance unit in force at the call (yard at defaults)
+        target = ref.convert(case["target"][0], case["target"][1], case.get("pref_distance_after") or "Yard")
+        r.label("bare-target-distance")
         # conversion through yards must not change the target distance noticeably
     else:
         target = _q(case["target"])
@@ -256,5 +257,5 @@ MANIFEST = {
     "text": "clicks x effective click = correction (1e-8 rel) separately for elevation and windage, for FFP/SFP/LWIR with independently "
             "drawn h and v click sizes in all angular units, all distance units, via get_adjustment and get_trajectory_adjustment; sign, "
             "linearity and constructor rejections. Exploration level over generated inputs.",
-    "note": "PreferredUnits at defaults; SFP scaling accepted in radians or in the click's given unit (they differ only for tangent units)",
+    "note": "preferred distance unit generated for the query (bare target distances are read in it); SFP scaling accepted in radians or in the click's given unit (they differ only for tangent units)",
 }
